@@ -21,7 +21,10 @@ def pool_cases(tier):
     is still running on a pool thread - both arrive, next() returns"""
     k = 5 if tier == "quick" else 40
     return [("x96", "(case x96 handshake observe_on %d)" % k, {"kind": "threads", "op": "observe_on-pool"}),
-            ("x97", "(case x97 handshake delay %d)" % k, {"kind": "threads", "op": "delay-pool"})]
+            ("x97", "(case x97 handshake delay %d)" % k, {"kind": "threads", "op": "delay-pool"}),
+            # a pulling source asks is_finished() while a delivery runs on a pool thread (seeded C07-13)
+            ("x98", "(case x98 handshake iter_observe_on %d)" % k, {"kind": "threads", "op": "observe_on-pool-iter"}),
+            ("x99", "(case x99 handshake iter_delay %d)" % k, {"kind": "threads", "op": "delay-pool-iter"})]
 
 
 def run(tier, seed, replay=None):
